@@ -9,8 +9,8 @@ def run():
     wd = vf.fresh(vf.rundir("setup", "numtest"))
     lib = vf.fresh(os.path.join(wd, "lib"))
     src = open(os.path.join(vf.SPEC, "num_big", "Num.tla")).read()
-    assert "B == 10000" in src
-    open(os.path.join(lib, "Num.tla"), "w").write(src.replace("B == 10000", "B == 10"))
+    assert "LimbBase == 10000" in src
+    open(os.path.join(lib, "Num.tla"), "w").write(src.replace("LimbBase == 10000", "LimbBase == 10"))
     shutil.copy(os.path.join(vf.SPEC, "NumTest.tla"), wd)
     shutil.copy(os.path.join(vf.SPEC, "NumTest.cfg"), wd)
     import subprocess
